@@ -3,6 +3,8 @@ import CssVerif.Lemmas.NumColor
 import CssVerif.Lemmas.NumStr
 import CssVerif.Model.NumF64
 import CssVerif.Lemmas.NumF64
+import CssVerif.Lemmas.NumPV
+import CssVerif.Lemmas.NumF64Ops
 /-!
 # C18 — value normalisation never changes what a value denotes
 
@@ -139,18 +141,35 @@ example : roundTrip Prefs.default .number (cps "x") = .error .indexError := by d
 `roundTripF64` evaluates the serializer's number operations on IEEE-754 doubles, as CPython does; it agrees with
 the implementation on every literal of every run (correspondence, no domain restriction). The theorems above are
 about the exact layer `roundTrip`. Full statement of the bridge (validated by the driver on every in-domain literal
-of every run — 134 000 per quick run — but not yet proved in Lean, see docs/C18.md):
+of every run — 134 000 per quick run; proved in Lean below 2^33, see `f64_bridge_partial`):
 
     theorem f64_bridge (l : Lit) (h : l.Wf) (h6 : (l.fp.getD []).length ≤ 6)
         (hr : if E.allZero (l.fp.getD []) then natOfDigits l.ip ≤ 2^53 else natOfDigits l.ip < 2^33) :
         roundTripF64 p typ l.text = roundTrip p typ l.text
 
-What IS proved of the bridge is its numerical core (`f64_sixth_decimal_partial`): a double within half an ulp of a
-six-place decimal is printed by `'%f'` with exactly the digits of that decimal as soon as its exponent is ≤ -20 —
-which is the case for every double below 2^33, and for none from 2^33 on. Missing for the full `f64_bridge`: that
-`nearestF64` returns such a double (its definition rounds to nearest at a 53-bit quotient; validated against
-CPython on every literal of every run), the same argument for `== 0`, `== int(x)`, `-1 < x < 1`, and that
-`natToDigits` of the two halves of `n6` spells the literal's digits.
+What IS proved of the bridge (wave 3: the window itself, not only its core):
+* `f64_conversion_half_ulp` — the conversion of the model (`nearestF64`, the function the driver runs against
+  CPython's `float()` on every literal) returns, for EVERY `num / den`, a double within half a unit in the last place,
+  whatever exponent it chose;
+* `f64_window_normal` — for `0 < num / den < 2^33`, `den < 2^20` the exponent selection (`chooseExp`, `Nat.log2`)
+  yields a normal double (`2^52 ≤ m`) with a negative exponent;
+* `f64_window_exponent` — such a double of a decimal with at most six fraction digits has exponent ≤ -20 (because
+  `10^6 < 2^20`): the bound 2^33 of `C18-float-digits` is exactly where this stops;
+* `f64_pctF_window` — hence, for EVERY non-zero literal with at most six fraction digits below 2^33, `'%f'` of the
+  double prints exactly the literal's value on six places (no hypothesis on the double);
+* `f64_sixth_decimal_partial` — the numerical core used by the above.
+* `f64_predicates_window`, **`f64_bridge_fraction`** — the predicates `== 0`, `-1 < x < 1`, `== int(x)` on the double
+  agree with the exact layer, `str(n)` of the model spells the digits (`natToDigits_spell`), `'%f'` on the double is
+  the exact layer's `'%f'` as a text (`pctF_eq_window`), hence `roundTripF64 = roundTrip` for every literal with a
+  non-zero fraction (≤ 6 digits) and integer part < 2^33: **the fraction half of `f64_bridge` is proved**.
+* **`f64_bridge_partial`** — together with the integral and the zero literals with a point (`toF64_integral_window`:
+  the conversion of an integer below 2^33 is exact; `str(int(x))` spells its digits): `roundTripF64 = roundTrip` for
+  EVERY literal with at most six fraction digits and integer part below 2^33 (below 2^51 when the fraction is all
+  zeros); `number_written_canonical_f64` transfers
+  T18.1a to the binary64 layer.
+Missing for the full `f64_bridge`: only the literals with an all-zero fraction and an integer part in `[2^51, 2^53]`
+(e.g. `4503599627370496.0`): there the exponent selection lemma `chooseExp_window_gen` (negative exponents, quotients
+below 2^51) has to be extended to non-negative exponents. Validated by the driver on every in-domain literal of every run.
 
 Outside that window the implementation really is lossy: -/
 
@@ -168,6 +187,97 @@ theorem f64_sixth_decimal_partial (neg : Bool) (m j n6 : Nat) (hj : 20 ≤ j)
 example : 2 * (7205759403792794 * 10 ^ 6 - 100000 * 2 ^ 56) ≤ 10 ^ 6 ∧
     2 * (100000 * 2 ^ 56 - 7205759403792794 * 10 ^ 6) ≤ 10 ^ 6 ∧
     toF64 [] (cps "0") (cps "1") = some { neg := false, m := 7205759403792794, e := -56 } := by decide +kernel
+
+/-- accuracy of the float conversion the binary64 layer uses (for all `num`, `den > 0`): the double `m · 2^-j` that
+`nearestF64` returns for `num / den` is within half a unit in the last place, `|m / 2^j - num / den| ≤ 2^-(j+1)`
+(multiplied out); `nearestF64` is tied to CPython's `float()` by the correspondence on every literal -/
+theorem f64_conversion_half_ulp (num den : Nat) (hd : 0 < den) (m j : Nat)
+    (h : nearestF64 num den = some (m, -(j : Int))) (hj : 0 < j) :
+    2 * (m * den - num * 2 ^ j) ≤ den ∧ 2 * (num * 2 ^ j - m * den) ≤ den :=
+  nearestF64_half_ulp num den hd m j h hj
+
+/-- **the window of `C18-float-digits` is where it is**: the (normal) double of a decimal `n / 10^k`, `k ≤ 6`, below
+`2^33` has binary exponent `≤ -20`, so that half an ulp is smaller than half a unit of the sixth decimal place -/
+theorem f64_window_exponent (n k m j : Nat) (hk : k ≤ 6) (hj : 0 < j) (hm : 2 ^ 52 ≤ m)
+    (hn : n < 2 ^ 33 * 10 ^ k) (h : nearestF64 n (10 ^ k) = some (m, -(j : Int))) : 20 ≤ j :=
+  window_exponent n k m j hk hj hm hn h
+
+/-- inside the window the conversion returns a normal double with a negative exponent (the exponent selection
+`chooseExp` with `Nat.log2`, for all `0 < num / den < 2^33`, `den < 2^20`) -/
+theorem f64_window_normal (num den : Nat) (hnum : 0 < num) (hden : 0 < den) (hwin : num < 2 ^ 33 * den)
+    (hsmall : den < 2 ^ 20) :
+    ∃ m j : Nat, nearestF64 num den = some (m, -(j : Int)) ∧ 0 < j ∧ 2 ^ 52 ≤ m :=
+  nearestF64_window num den hnum hden hwin hsmall
+
+/-- **the `'%f'` step of `f64_bridge` on the whole window** (no hypothesis on the double any more): for every
+non-zero literal `sign ip . fp` with at most six fraction digits and value below `2^33`, `float()` of the model
+returns a double and `'%f'` of it is exactly the literal's value `n · 10^(6-k)` on six places — integer digits,
+the point, six fraction digits; no digit is changed anywhere in the window -/
+theorem f64_pctF_window (sign ip fp : List Nat) (hk : fp.length ≤ 6) (hn0 : natOfDigits (ip ++ fp) ≠ 0)
+    (hn : natOfDigits (ip ++ fp) < 2 ^ 33 * 10 ^ fp.length) :
+    ∃ x : F64, toF64 sign ip fp = some x ∧
+      F.pctF x =
+        (if sign == [cMinus] then [cMinus] else []) ++
+          natToDigits (natOfDigits (ip ++ fp) * 10 ^ (6 - fp.length) / 10 ^ 6) ++ cDot ::
+          (List.replicate (6 - (natToDigits (natOfDigits (ip ++ fp) * 10 ^ (6 - fp.length) % 10 ^ 6)).length) cZero ++
+            natToDigits (natOfDigits (ip ++ fp) * 10 ^ (6 - fp.length) % 10 ^ 6)) :=
+  toF64_pctF_window sign ip fp hk hn0 hn
+
+example : (cps "999999").length ≤ 6 ∧ natOfDigits (cps "8589934591" ++ cps "999999") ≠ 0 ∧
+    natOfDigits (cps "8589934591" ++ cps "999999") < 2 ^ 33 * 10 ^ (cps "999999").length := by decide +kernel
+
+/-- the predicates of `do_css_Value` on the double — `== 0`, `-1 < x < 1`, and `== int(x)` when the fraction is not
+zero — agree with the exact layer for every non-zero literal in the window (they choose the branch that is run) -/
+theorem f64_predicates_window (v : DimVal) (f : List Nat) (hfp : v.fp = some f) (hip : Digits v.ip) (hf : Digits f)
+    (hk : f.length ≤ 6) (hn0 : natOfDigits (v.ip ++ f) ≠ 0) (hn : natOfDigits (v.ip ++ f) < 2 ^ 33 * 10 ^ f.length) :
+    f64Ops.isZero v = exactOps.isZero v ∧ f64Ops.absLtOne v = exactOps.absLtOne v ∧
+      (E.allZero f = false → f64Ops.isIntegral v = exactOps.isIntegral v) :=
+  f64Ops_predicates_window v f hfp hip hf hk hn0 hn
+
+/-- **`f64_bridge`, fraction half — the window `C18-float-digits` leaves is exact**: for EVERY well-formed literal with
+a non-zero fraction of at most six digits and an integer part below `2^33`, every unit, every preference record, the
+text CPython's float arithmetic writes (binary64 layer: `float()`, `== 0`, `== int(x)`, `-1 < x < 1`, `'%f'`) is the
+text the exact layer writes — so `number_written_canonical`, `number_denotes`, `number_idempotent` … hold for what the
+implementation computes there, not only for the exact layer. (Full `f64_bridge` = this + the integral half, below.) -/
+theorem f64_bridge_fraction (l : Lit) (h : l.Wf) (p : Prefs) (typ : NumType) (f : List Nat) (hfp : l.fp = some f)
+    (hk : f.length ≤ 6) (hfz : E.allZero f = false) (hwin : natOfDigits l.ip < 2 ^ 33) (hov : l.tooLarge = false) :
+    roundTripF64 p typ l.text = roundTrip p typ l.text :=
+  roundTripF64_eq_fraction h p typ f hfp hk hfz hwin hov
+
+/-- **`f64_bridge` below `2^33`, below `2^51` for an all-zero fraction** (partial only in this: literals with an
+all-zero fraction and an integer part in `[2^51, 2^53]` are not covered; full statement above): for EVERY well-formed
+literal with at most six fraction digits — zero, integral or not, with or without `.` — every unit and every
+preference record, the binary64 layer (what CPython computes, tied to the implementation on every literal of every
+run) writes exactly what the exact layer writes -/
+theorem f64_bridge_partial (l : Lit) (h : l.Wf) (p : Prefs) (typ : NumType)
+    (h6 : (l.fp.getD []).length ≤ 6)
+    (hwin : natOfDigits l.ip < (if E.allZero (l.fp.getD []) then 2 ^ 51 else 2 ^ 33)) (hov : l.tooLarge = false) :
+    roundTripF64 p typ l.text = roundTrip p typ l.text :=
+  roundTripF64_eq_window h p typ h6 hwin hov
+
+/-- consequence: T18.1a holds for what the implementation's float arithmetic computes, not only for the exact layer:
+in the window the binary64 layer writes the canonical literal -/
+theorem number_written_canonical_f64 (l : Lit) (h : l.Wf) (p : Prefs) (typ : NumType)
+    (hsp : isBlank p.spacer = true) (h6 : (l.fp.getD []).length ≤ 6)
+    (hwin : natOfDigits l.ip < (if E.allZero (l.fp.getD []) then 2 ^ 51 else 2 ^ 33)) (hov : l.tooLarge = false) :
+    roundTripF64 p typ l.text = .ok (canonLit p.omitLeadingZero l).text := by
+  rw [f64_bridge_partial l h p typ h6 hwin hov]
+  exact roundTrip_canon h p typ hsp h6 hov
+
+/-- the hypotheses are satisfiable at the upper edge of the window: `8589934591.999999px` -/
+example : (⟨[], cps "8589934591", some (cps "999999"), cps "px"⟩ : Lit).Wf ∧ (cps "999999").length ≤ 6 ∧
+    E.allZero (cps "999999") = false ∧ natOfDigits (cps "8589934591") < 2 ^ 33 ∧
+    (⟨[], cps "8589934591", some (cps "999999"), cps "px"⟩ : Lit).tooLarge = false := by
+  refine ⟨⟨by decide, by unfold Digits; decide, ?_, by decide, by decide, by decide⟩, by decide, by decide,
+    by decide +kernel, by decide +kernel⟩
+  intro f hf; injection hf with hf; subst hf; exact ⟨by unfold Digits; decide, by decide⟩
+
+/-- the hypotheses are satisfiable — `8589934591.999999` (the largest six-place decimal below 2^33) has the normal
+double `9007199254740991 · 2^-20` (exponent exactly at the bound) — and are not met just above:
+`8589934592.3` has exponent `-19` -/
+example : nearestF64 8589934591999999 (10 ^ 6) = some (9007199254740991, -((20 : Nat) : Int)) ∧ 2 ^ 52 ≤ 9007199254740991 ∧
+    8589934591999999 < 2 ^ 33 * 10 ^ 6 ∧
+    nearestF64 85899345923 (10 ^ 1) = some (4503599627527782, -((19 : Nat) : Int)) := by decide +kernel
 
 
 /-- the witness of `C18-float-digits`, machine-checked: CPython's arithmetic writes `8589934592.3px` as
@@ -294,7 +404,9 @@ alwaysS=True)` ends with the operator followed by one space item, whatever came 
 preferences at all; a serializer that used `prefs.spacer` here would fuse `- 10px` into `-10px`) -/
 theorem calc_operator_followed_by_space (out : List (List Nat)) (v : List Nat) :
     ∃ o, outAppendOperator out v = o ++ [v, [0x20]] :=
-  ⟨_, rfl⟩
+  ⟨(if wouldFuse (if endsWithRawSpace v then removeLastIfS out else out) v
+      then (if endsWithRawSpace v then removeLastIfS out else out) ++ [[0x20]]
+      else (if endsWithRawSpace v then removeLastIfS out else out)), by simp [outAppendOperator, outPush]⟩
 
 /-- kernel-run small-scope TEST (not a general theorem): 72 expressions `calc(a o1 b o2 calc(c))` over positive,
 negative and signed operands and all operators are written with exactly one space around every operator — the same
@@ -304,6 +416,110 @@ theorem calc_separators_small_scope : calcSamplesOk = true := by decide +kernel
 example : fmtCalc f64Ops { Prefs.default with spacer := [], omitLeadingZero := true }
     [.func (cps "calc("), .operand .percentage (cps "100%"), .s, .op (cps "-"), .s, .operand .dimension (cps "0.50px"),
      .rparen] = .ok (cps "calc(100% - .5px)") := by decide +kernel
+
+/-! ## T18.5 order and separators of the components of a whole value
+
+`fmtPV` / `Comp.text` / `Args.fmt` (`Model/NumPV.lean`) transcribe `do_css_PropertyValue` and `do_css_CSSFunction`
+item by item on top of `Out.append`. `pvRender` / `Comp.render` / `Args.render` (`Lemmas/NumPV.lean`) are the
+specification: they do not know `Out`; the text of a value (of a function) is the texts of its components (its name,
+its arguments, `)`) **in source order**, with `,` + `listItemSpacer` exactly where the source has a comma, `/` exactly
+where it has a slash, and the spacer (one blank if the spacer is empty) exactly between two adjacent components —
+nothing else, nothing dropped, nothing reordered, at every nesting depth. The rendering is defined for every item
+sequence in which a separator stands between two components (the only ones the grammar of `PropertyValue` /
+`CSSFunction` produces; the harness checks this shape on every parsed value).
+
+Hypotheses: the spacer is white space (`isBlank`), and every *leaf* is written as an ordinary word (`Plain`: a
+character that is neither white space nor punctuation of `Out.append`, no unescaped blank at the end, no `*` at the
+start) — proved here for strings and URLs, for function texts (so it propagates upwards), checked by the harness on
+the written text of every number, identifier, colour and `calc()` of every generated value. -/
+
+/-- **T18.5** for a function (any nesting depth): `CSSFunction.cssText` is the rendering of its structure — the
+name, the arguments in source order, `,` + `listItemSpacer` for a comma, the spacer between adjacent arguments,
+`)` — and it is again an ordinary word, under every preference record with a blank spacer -/
+theorem function_written_structure (ops : NumOps) (p : Prefs) (hsp : isBlank p.spacer = true) (c : Comp) (t : List Nat)
+    (hl : Comp.LeavesPlain ops p c) (hr : Comp.render ops p c = .ok t) :
+    Comp.text ops p c = .ok t ∧ Plain t :=
+  Comp.text_of_render ops p hsp c t hl hr
+
+/-- **T18.5** for a whole value: `PropertyValue.cssText` is the rendering of its structure — the components in source
+order (each written by its own serializer), `,` + `listItemSpacer` where the source has a comma, `/` where it has a
+slash, the spacer (one blank if empty) between adjacent components — for every value with at least one component,
+under every preference record with a blank spacer -/
+theorem value_written_structure (ops : NumOps) (p : Prefs) (hsp : isBlank p.spacer = true) (items : List PVItem)
+    (r : List Nat) (hl : ∀ i ∈ items, PVItem.LeavesPlain ops p i) (hv : items.any PVItem.isValue = true)
+    (hr : pvRender ops p items .first = .ok r) : fmtPV ops p items = .ok r :=
+  fmtPV_of_render ops p hsp items r hl hv hr
+
+/-- the hypothesis on the leaves holds for every STRING and URI value, whatever its content: they are written as
+`helper.string` / `helper.uri` of the stored value, which start with `"` / `u` and end with `"` / `)` -/
+theorem string_uri_leaves_plain (ops : NumOps) (p : Prefs) (hsp : isBlank p.spacer = true) (v : List Nat) :
+    Comp.LeavesPlain ops p (.simple .string v) ∧ Comp.LeavesPlain ops p (.uri v) := by
+  constructor
+  · intro t h
+    simp only [Comp.text, (fmtSimple_quoted p hsp v).1] at h
+    injection h with h; subst h; exact plain_helperString v
+  · intro t h
+    simp only [Comp.text, (fmtSimple_quoted p hsp v).2] at h
+    injection h with h; subst h; exact plain_helperUri v
+
+/-- the hypothesis on the leaves holds for every number the number theorems cover: a well-formed literal with at most
+six fraction digits whose unit has no blank is written (exact layer, `number_written_canonical`) as a text with a
+digit, starting with its sign, a digit or the point and ending with a digit or the last character of the unit -/
+theorem number_leaves_plain (l : Lit) (h : l.Wf) (p : Prefs) (typ : NumType) (hsp : isBlank p.spacer = true)
+    (h6 : (l.fp.getD []).length ≤ 6) (hov : l.tooLarge = false) (hu : ∀ c ∈ l.unit, c ≠ 0x20) :
+    Comp.LeavesPlain exactOps p (.num typ l.text) :=
+  num_leaf_plain h p typ hsp h6 hov hu
+
+/-- … and for every identifier that is an ordinary word itself (it is written unchanged) -/
+theorem ident_leaves_plain (ops : NumOps) (p : Prefs) (hsp : isBlank p.spacer = true) (v : List Nat) (hv : Plain v) :
+    Comp.LeavesPlain ops p (.simple .ident v) := by
+  intro t ht
+  simp only [Comp.text, fmtSimple, outValue_outAppend_text p hsp v .ident hv.punct (by decide) false] at ht
+  injection ht with ht; subst ht; exact hv
+
+example : (⟨[cPlus], cps "0", some (cps "50"), cps "PX"⟩ : Lit).Wf ∧
+    ∀ c ∈ (⟨[cPlus], cps "0", some (cps "50"), cps "PX"⟩ : Lit).unit, c ≠ 0x20 := by
+  refine ⟨⟨by decide, by unfold Digits; decide, ?_, by decide, by decide, by decide⟩, by decide⟩
+  intro f hf; injection hf with hf; subst hf; exact ⟨by unfold Digits; decide, by decide⟩
+
+/-- the separators are the only place where a spacer preference shows: with two preference records that agree on
+`omitLeadingZero` / `minimizeColorHash` the renderings of a comma-free, slash-free pair of leaves differ exactly in the
+spacer (instance of the rendering, spelled out) -/
+theorem pair_rendering (ops : NumOps) (p : Prefs) (a b : Comp) (ta tb : List Nat)
+    (ha : Comp.render ops p a = .ok ta) (hb : Comp.render ops p b = .ok tb) :
+    pvRender ops p [.comp a, .comp b] .first = .ok (ta ++ sepSpace p ++ tb) ∧
+    pvRender ops p [.comp a, .op (cps ","), .comp b] .first = .ok (ta ++ cps "," ++ p.listItemSpacer ++ tb) ∧
+    pvRender ops p [.comp a, .op (cps "/"), .comp b] .first = .ok (ta ++ cps "/" ++ tb) := by
+  have n : cps "/" ≠ cps "," := by decide
+  simp [pvRender, ha, hb, n]
+
+/-- non-vacuity of `value_written_structure` / `function_written_structure`, minified preferences (both spacers
+empty), `sampleValue` = `1.50px/"a" , f(g(0.5,url(x y)) b)`: the hypotheses hold, the rendering is defined, and the
+written text is `1.5px/"a",f(g(.5,url("x y")) b)` -/
+example :
+    isBlank samplePrefs.spacer = true ∧ (∀ i ∈ sampleValue, PVItem.LeavesPlain exactOps samplePrefs i) ∧
+      sampleValue.any PVItem.isValue = true ∧ pvRender exactOps samplePrefs sampleValue .first = .ok sampleText ∧
+      fmtPV exactOps samplePrefs sampleValue = .ok sampleText := by
+  have hr : pvRender exactOps samplePrefs sampleValue .first = .ok sampleText := by decide +kernel
+  have hb : isBlank samplePrefs.spacer = true := by decide
+  have hl : ∀ i ∈ sampleValue, PVItem.LeavesPlain exactOps samplePrefs i := by
+    have leaf : ∀ (c : Comp) (t0 : List Nat), Comp.text exactOps samplePrefs c = .ok t0 → Plain t0 →
+        ∀ t, Comp.text exactOps samplePrefs c = .ok t → Plain t := by
+      intro c t0 h0 hp t h; exact Except.ok.inj (h0.symm.trans h) ▸ hp
+    intro i hi
+    simp only [sampleValue, List.mem_cons, List.mem_nil_iff, or_false] at hi
+    rcases hi with rfl | rfl | rfl | rfl | rfl
+    · simp only [PVItem.LeavesPlain, Comp.LeavesPlain]
+      exact leaf (.num .dimension (cps "1.50px")) (cps "1.5px") (by decide +kernel) (by decide)
+    · trivial
+    · exact (string_uri_leaves_plain exactOps samplePrefs hb _).1
+    · trivial
+    · simp only [PVItem.LeavesPlain, Comp.LeavesPlain, Args.LeavesPlain, and_true]
+      refine ⟨by decide, ⟨by decide, ?_, ?_⟩, ?_⟩
+      · exact leaf (.num .number (cps "0.5")) (cps ".5") (by decide +kernel) (by decide)
+      · exact (string_uri_leaves_plain exactOps samplePrefs hb _).2
+      · exact leaf (.simple .ident (cps "b")) (cps "b") (by decide +kernel) (by decide)
+  exact ⟨hb, hl, by decide, hr, value_written_structure exactOps samplePrefs hb sampleValue _ hl (by decide) hr⟩
 
 /-! ## strings and URLs
 
